@@ -3,8 +3,11 @@
 mod envcheck;
 mod envx;
 mod graphx;
+mod repeatx;
 mod ring;
 mod subjects;
+mod subjects_derive;
+mod subjects_src;
 
 use vcommon::*;
 
@@ -27,6 +30,7 @@ fn main() {
             "ring" => ring::replay_json(&v["replay"]),
             "envx" => env_replay(&v),
             "graphx" => graphx::replay_json(&v["replay"]),
+            "repeatx" => repeatx::replay_json(&v["replay"]),
             e => Err(format!("unknown engine {e:?}")),
         };
         match r {
@@ -50,6 +54,7 @@ fn main() {
         "ring" => ring::run(prop, tier, shard),
         "env" => env_run(prop, tier, shard),
         "graph" => graphx::run(tier, shard),
+        "repeat" => repeatx::run(tier),
         _ => usage(),
     };
     rep.emit();
@@ -77,6 +82,8 @@ fn env_run(prop: &'static str, tier: &str, shard: Option<&str>) -> Report {
     let horizon = match (prop, thorough) {
         ("C12", false) => 3,
         ("C12", true) => 4,
+        ("C19", false) => 3,
+        ("C19", true) => 4,
         (_, false) => 4,
         (_, true) => 5,
     };
@@ -92,6 +99,12 @@ fn env_run(prop: &'static str, tier: &str, shard: Option<&str>) -> Report {
             }
         }
         envcheck::explore(&mut rep, sub, &cfg);
+    }
+    if prop == "C19" && i == 0 {
+        subjects_derive::eof_matrix(&mut rep);
+    }
+    if prop == "C16" {
+        subjects_src::cleanup();
     }
     rep.set("horizon", serde_json::json!(horizon));
     rep
